@@ -167,6 +167,71 @@ fn instants(quick: bool) -> Vec<NaiveDateTime> {
     v
 }
 
+/// formats a caller may pass explicitly (not in the library's list): composite (%T, %R, %c, %F, %D, %X), padding
+/// modified (%-H, %_H, %e, %k), 12-hour, day-of-year, compact, unix-timestamp specifiers
+const CALLER_FORMATS: [&str; 16] = [
+    "%Y-%m-%d %T",
+    "%F %T",
+    "%F %R",
+    "%c",
+    "%Y-%m-%d %-H:%-M:%-S",
+    "%Y-%m-%d %_H:%_M:%_S",
+    "%Y/%m/%e %k:%M:%S",
+    "%s",
+    "%Y-%m-%dT%H:%M:%S%.f",
+    "%d.%m.%Y %H.%M.%S",
+    "%Y%m%d%H%M%S",
+    "%Y-%m-%d %I:%M:%S %p",
+    "%Y-%j %T",
+    "%F %X",
+    "%D %T",
+    "%Y-%m-%d %H:%M",
+];
+
+/// explicit caller formats: the library's formatter writes the instant with the format, the parser is given the
+/// same format; what the (text, format) pair denotes is decided by the calendar library (a date-time, else a date)
+fn check_caller_formats(c: &NaiveDateTime, ctx: &mut Ctx) {
+    let fam = "datetime-caller-formats";
+    ctx.states += 1;
+    ctx.fam(fam).states += 1;
+    ctx.nontrivial(fam, hash_bytes(c.to_string().as_bytes()));
+    for u in 0..4u8 {
+        let t = match ts_of(u, c) {
+            Some(t) => t,
+            None => continue,
+        };
+        for f in CALLER_FORMATS {
+            if f.contains("%D") && !(1969..=2068).contains(&chrono::Datelike::year(c)) {
+                continue; // two-digit years denote 1969..2068 only
+            }
+            let text = match by_unit!(u, U => catch(|| DateTime::<U>::new(t).strftime(Some(f)))) {
+                Outcome::Ok(s) => s,
+                Outcome::Panic(m) => {
+                    viol(ctx, "strftime(Some(format))", None, json!({"family": fam, "unit": UNITS[u as usize], "t": t, "format": f}), "a text".into(), format!("PANIC({})", truncate(&m, 100)));
+                    continue;
+                }
+            };
+            let carried = match NaiveDateTime::parse_from_str(&text, f) {
+                Ok(dt) => dt,
+                Err(_) => match chrono::NaiveDate::parse_from_str(&text, f) {
+                    Ok(d) => d.and_hms_opt(0, 0, 0).unwrap(),
+                    Err(_) => continue, // the pair denotes nothing for the calendar library either
+                },
+            };
+            let want = match ts_of(u, &carried) {
+                Some(w) => w,
+                None => continue,
+            };
+            ctx.transitions += 1;
+            let r = dt_parse(u, &text, Some(f));
+            ctx.eval(fam, hash_bytes(format!("{r:?}").as_bytes()));
+            if !matches!(r, Outcome::Ok(Ok(g)) if g == want) {
+                viol(ctx, "parse(strftime(t, format), format)", None, json!({"family": fam, "unit": UNITS[u as usize], "t": t, "text": text, "format": f}), format!("{want}"), format!("{r:?}"));
+            }
+        }
+    }
+}
+
 fn check_datetime_roundtrip(c: &NaiveDateTime, edits: bool, ctx: &mut Ctx) {
     let fam = "datetime-roundtrip";
     ctx.states += 1;
@@ -306,6 +371,7 @@ fn main() {
                 for c in instants(false) {
                     if ctx.buckets.is_empty() {
                         check_datetime_roundtrip(&c, false, &mut ctx);
+                        check_caller_formats(&c, &mut ctx);
                     }
                 }
             }
@@ -403,6 +469,7 @@ fn main() {
     let idx: Vec<usize> = (0..inst.len()).collect();
     total.merge(par_items(&idx, run.threads, |i, ctx| {
         check_datetime_roundtrip(&inst[*i], *i % (inst.len() / n_edit).max(1) == 0, ctx);
+        check_caller_formats(&inst[*i], ctx);
         ctx.traces += 1;
     }));
     let mut c = Ctx::new();
